@@ -289,7 +289,8 @@ pub enum Policy<'a> {
     /// follow the prefix, then choose at random
     Random(&'a [usize], u64),
     /// at every point take the enabled decision that comes first in this list of wishes
-    Guided(&'a [Decision]),
+    /// (action "begin" | "end" | "poll", task kind, file name, first pass)
+    Guided(&'a [(String, String, String, bool)]),
 }
 
 fn xorshift(s: &mut u64) -> u64 {
@@ -310,12 +311,13 @@ pub fn run_controlled(cfg: Config, n: usize, policy: Policy) -> RunOutcome {
         Policy::Random(_, s) => *s | 1,
         _ => 1,
     };
-    let mut wishes: Vec<Decision> = match &policy {
+    let mut wishes: Vec<(String, String, String, bool)> = match &policy {
         Policy::Guided(w) => w.to_vec(),
         _ => vec![],
     };
     let mut verdict = String::new();
     let mut detail = String::new();
+    let mut idle = 0usize;
     loop {
         match ctl.wait_quiescent(Duration::from_secs(10)) {
             Wait::Finished => break,
@@ -330,15 +332,20 @@ pub fn run_controlled(cfg: Config, n: usize, policy: Policy) -> RunOutcome {
                 break;
             }
             Wait::Quiescent => {
-                if ctl.is_hang() {
-                    let g = ctl.inner.lock().unwrap();
-                    verdict = if g.problem.as_deref().map(|s| s.starts_with("panic")).unwrap_or(false) {
-                        "panic".into()
-                    } else {
-                        "hang".into()
-                    };
-                    detail = format!("coordinator polls with nothing outstanding: done={} total={} {:?}", g.done, g.total, g.problem);
-                    break;
+                if ctl.is_idle() {
+                    idle += 1;
+                    if idle > 3 {
+                        let g = ctl.inner.lock().unwrap();
+                        verdict = if g.problem.as_deref().map(|s| s.starts_with("panic")).unwrap_or(false) {
+                            "panic".into()
+                        } else {
+                            "hang".into()
+                        };
+                        detail = format!("coordinator keeps polling with nothing outstanding: done={} total={} {:?}", g.done, g.total, g.problem);
+                        break;
+                    }
+                } else {
+                    idle = 0;
                 }
                 let en = ctl.enabled();
                 if en.is_empty() {
@@ -354,10 +361,18 @@ pub fn run_controlled(cfg: Config, n: usize, policy: Policy) -> RunOutcome {
                     },
                     Policy::Guided(_) => {
                         let mut pick = None;
-                        for (wi, w) in wishes.iter().enumerate() {
-                            if let Some(i) = en.iter().position(|d| d == w) {
-                                pick = Some((wi, i));
-                                break;
+                        {
+                            let g = ctl.inner.lock().unwrap();
+                            for (wi, w) in wishes.iter().enumerate() {
+                                let hit = en.iter().position(|d| match d {
+                                    Decision::Poll => w.0 == "poll",
+                                    Decision::Begin(t) => w.0 == "begin" && g.tasks[*t].kind == w.1 && g.tasks[*t].file == w.2 && g.tasks[*t].first == w.3,
+                                    Decision::End(t) => w.0 == "end" && g.tasks[*t].kind == w.1 && g.tasks[*t].file == w.2 && g.tasks[*t].first == w.3,
+                                });
+                                if let Some(i) = hit {
+                                    pick = Some((wi, i));
+                                    break;
+                                }
                             }
                         }
                         match pick {
